@@ -554,6 +554,14 @@ func (v *PolicyVerifier) VerifyRelativeForRef(ctx context.Context, firstEntry, l
 						slog.Debug("Setting current policy...")
 					}
 
+					// The new policy is used to verify the entries that follow
+					// it, so its rule files must be signed as its own root of
+					// trust and delegations require
+					slog.Debug("Validating new policy's state...")
+					if err := newPolicy.Verify(ctx); err != nil {
+						return fmt.Errorf("policy state has invalidly signed metadata: %w", err)
+					}
+
 					currentPolicy = newPolicy
 
 					if v.persistentCacheEnabled {
